@@ -1,3 +1,7 @@
 import OlVerif.Props.C06
 #print axioms OlVerif.C06.load_store_same_dict_inner
 #print axioms OlVerif.C06.load_store_same_dict_outer
+#print axioms OlVerif.C06.free_name_goes_to_binder
+#print axioms OlVerif.C06.binder_is_found
+#print axioms OlVerif.C06.binder_knows
+#print axioms OlVerif.C06.dictionary_is_new
